@@ -225,6 +225,10 @@ def _open(file, mode="r", buffering=-1, encoding=None, errors=None, newline=None
         if g is not None or (not isinstance(file, int) and _fs_for(file) is not None):
             encoding = simenv.get("text_encoding")
     if g is None:
+        if isinstance(mode, str) and not isinstance(file, int):
+            gr = _fs_for(file)
+            if gr is not None and gr[0].read_yields and not gr[0].dead:
+                gr[0].sim.kernel.yield_point("fs:open-read")  # another thread may run between two reads
         return _real["open"](file, mode, buffering, encoding, errors, newline, closefd, opener)
     fs, p, rel = g
     if "+" in mode:
